@@ -6,6 +6,7 @@
 #include "Stream/FileWriter.h"
 #include "Stream/MemoryReader.h"
 #include "Stream/FileWriter.h"
+#include "../premain/premain.h"
 #include <functional>
 #include <stdexcept>
 
@@ -102,6 +103,7 @@ struct BmpStream : Family {
 		bool have = false;
 		for (auto& l : plan.world) if (l.verb == "bmp") { m = bmpFromSpec(l); have = true; }
 		if (!have) throw std::runtime_error("no bmp in plan");
+		if (plan.index % 64 == 0) { std::string lw, d; Out lo = callLib(plan, [&] { d = lifetimeProbeDifference("bitmap:"); }, &lw); if (lo == OkOut && !d.empty()) ctx.fail("C08.factory-equal", d); ctx.count("probe.lifetime_probes_compared"); }
 		std::vector<uint8_t> bytes = ref::encodeBmp(m);
 		std::string backend = plan.envs("backend", "mem"), wb = plan.envs("wbackend", "dyn");
 		BitmapFile bf;
@@ -305,6 +307,7 @@ struct TilesetStream : Family {
 	}
 
 	void execute(const Plan& plan, RunCtx& ctx) override {
+		if (plan.index % 64 == 0) { std::string lw, d; Out lo = callLib(plan, [&] { d = lifetimeProbeDifference("tileset:"); }, &lw); if (lo == OkOut && !d.empty()) ctx.fail("C09.bytes-reference", d); ctx.count("probe.lifetime_probes_compared"); }
 		ref::RTileset t;
 		bool bottomUp = false, have = false;
 		for (auto& l : plan.world) if (l.verb == "tileset") { t = tilesetFromSpec(l); bottomUp = l.u("bottomup", 0) != 0; have = true; }
@@ -459,6 +462,7 @@ struct PrtStream : Family {
 	}
 
 	void execute(const Plan& plan, RunCtx& ctx) override {
+		if (plan.index % 64 == 0) { std::string lw, d; Out lo = callLib(plan, [&] { d = lifetimeProbeDifference("art:"); }, &lw); if (lo == OkOut && !d.empty()) ctx.fail("C10.byte-stable", d); ctx.count("probe.lifetime_probes_compared"); }
 		ref::RPrt m;
 		bool have = false;
 		for (auto& l : plan.world) if (l.verb == "prt") { m = prtFromSpec(l); have = true; }
